@@ -406,8 +406,56 @@ func checkSourceCompare(p *core.Prog, r *core.Result, rule string) {
 			if len(vals) != 4 {
 				continue
 			}
+			isOldSum := func(x ssa.Value) bool { return core.LoadOfField(x, pkgRoot, "sourceFile", "oldSum") }
+			isNewSum := func(x ssa.Value) bool {
+				if core.LoadOfField(x, pkgRoot, "sourceFile", "sum") {
+					return true
+				}
+				return sumCall != nil && x == extractOf(sumCall, 0)
+			}
 			b, ok := core.ConstBool(vals[0])
+			facts := p.FactsAt(ret)
 			if !ok {
+				// the verdict held in a flag (fresh := true; if sum != oldSum { fresh = false }) or the comparison itself
+				if core.IsNilConst(vals[3]) {
+					if bo, isB := core.Unwrap(vals[0]).(*ssa.BinOp); isB && (bo.Op == token.EQL) && (isOldSum(bo.X) && isNewSum(bo.Y) || isOldSum(bo.Y) && isNewSum(bo.X)) {
+						n++
+						r.OK(rule, fmt.Sprintf("dawn.(*sourceFile).upToDate#true-%d", n), p.InstrPos(ret), "the verdict is the comparison of the recorded sum with the sum of the current contents")
+						continue
+					}
+					if ph, isPhi := core.Unwrap(vals[0]).(*ssa.Phi); isPhi {
+						efs := p.PhiEdgeFacts(ph)
+						allConst := true
+						for _, e := range ph.Edges {
+							if _, isC := core.ConstBool(e); !isC {
+								allConst = false
+							}
+						}
+						if allConst && len(efs) == len(ph.Edges) {
+							for ei, e := range ph.Edges {
+								eb, _ := core.ConstBool(e)
+								n++
+								fs := p.RefineFacts(efs[ei])
+								okE := fs.Find(func(c ssa.Value, v bool) bool {
+									bo, ok := c.(*ssa.BinOp)
+									if !ok || (bo.Op != token.EQL && bo.Op != token.NEQ) {
+										return false
+									}
+									if !(isOldSum(bo.X) && isNewSum(bo.Y) || isOldSum(bo.Y) && isNewSum(bo.X)) {
+										return false
+									}
+									return ((bo.Op == token.EQL) == v) == eb
+								})
+								if eb {
+									r.Check(okE, rule, fmt.Sprintf("dawn.(*sourceFile).upToDate#true-%d", n), p.InstrPos(ret), "up to date exactly when the recorded sum equals the sum of the current contents", "a source can be reported up to date without its content sum matching the recorded one")
+								} else {
+									r.Check(okE, rule, fmt.Sprintf("dawn.(*sourceFile).upToDate#false-%d", n), p.InstrPos(ret), "out of date exactly when the sums differ", "a source can be reported changed although its content sum equals the recorded one (e.g. on a timestamp-only touch)")
+								}
+							}
+							continue
+						}
+					}
+				}
 				r.Unk(rule, fmt.Sprintf("dawn.(*sourceFile).upToDate#return-%d", i+1), p.InstrPos(ret), "non-constant verdict")
 				continue
 			}
@@ -417,7 +465,7 @@ func checkSourceCompare(p *core.Prog, r *core.Result, rule string) {
 			n++
 			// equality fact between oldSum and the fresh sum
 			eqFact := func(want bool) bool {
-				return p.FactsAt(ret).Find(func(c ssa.Value, v bool) bool {
+				return facts.Find(func(c ssa.Value, v bool) bool {
 					bo, ok := c.(*ssa.BinOp)
 					if !ok || (bo.Op != token.EQL && bo.Op != token.NEQ) {
 						return false
@@ -871,7 +919,7 @@ func removedDependencyFact(p *core.Prog, fs core.FactSet) bool {
 				return false
 			}
 			rg, ok := nx.Iter.(*ssa.Range)
-			return ok && core.LoadOfField(rg.X, pkgRoot, "targetInfo", "Dependencies")
+			return ok && isRecordedDependencies(p, rg.X, 0)
 		})
 	}
 	failedLookupOfRecorded := func(at ssa.Instruction) bool {
@@ -881,7 +929,7 @@ func removedDependencyFact(p *core.Prog, fs core.FactSet) bool {
 				return false
 			}
 			lk, ok := e.Tuple.(*ssa.Lookup)
-			return ok && lk.CommaOk && fromRecorded(lk.Index) && !core.LoadOfField(lk.X, pkgRoot, "targetInfo", "Dependencies")
+			return ok && lk.CommaOk && fromRecorded(lk.Index) && !isRecordedDependencies(p, lk.X, 0)
 		})
 	}
 	var appendsOK func(v ssa.Value, seen map[ssa.Value]bool) bool
